@@ -83,8 +83,45 @@ func (c *allOfConstraintCompiler) extend(node ischema.Node, schemaNames []string
 		c.resolve(node, name)
 	}
 
+	// ... or when a later type repeats a key of the object or of an earlier type.
+	if obj, ok := node.(*ischema.ObjectNode); ok {
+		c.checkKeys(obj, schemaNames)
+	}
+
 	for _, name := range schemaNames {
 		c.extendWith(node, name)
+	}
+}
+
+// checkKeys makes sure that the keys of the object and of all the named types
+// are pairwise distinct, before any of them is copied.
+func (c *allOfConstraintCompiler) checkKeys(node *ischema.ObjectNode, names []string) {
+	type key struct {
+		name       string
+		isShortcut bool
+	}
+	seen := make(map[key]struct{}, node.Len())
+	for _, k := range node.Keys().Data {
+		seen[key{k.Key, k.IsShortcut}] = struct{}{}
+	}
+
+	lex := node.BasisLexEventOfSchemaForNode()
+	defer lexeme.CatchLexEventErrorWithIncorrectUserType(
+		lex,
+		lex.File().Name(),
+	)
+	for _, name := range names {
+		from, ok := c.rootSchema.MustType(name).RootNode().(*ischema.ObjectNode)
+		if !ok {
+			continue
+		}
+		for _, k := range from.Keys().Data {
+			kk := key{k.Key, k.IsShortcut}
+			if _, dup := seen[kk]; dup {
+				panic(errs.ErrDuplicateKeysInSchema.F(k.Key))
+			}
+			seen[kk] = struct{}{}
+		}
 	}
 }
 
